@@ -62,6 +62,9 @@ def doOp (vsbx : Bool) (w : W) (t : Nat) (op : Char) (li : Nat) : W × String :=
       -- the function-pointer load finds the owning sandbox from the cell's own address
       let (w2, o) := step region w1 t (.find i off)
       (w2, if o == some (i + 1) then "f1" else "f0")
+  | 'l' =>
+      -- by-name symbol lookups touch only this instance's cache (C11_cache_isolated): the answer is this library's function
+      if !s.created then (w, "-") else (w, "l1")
   | 'a' =>
       if !s.created then (w, "-") else
       -- register, look up, release: the table is empty again, the per-object counter has advanced
